@@ -26,6 +26,7 @@ TECH = {
     "C15": "MIR provenance of the returned Config (CLI overrides applied last), path table of the upward search stop test, fallback-location rule, constant audit of config file names",
     "C16": "MIR dominance of dispatch by de-duplication; constant audit of globs/ignore names; decision table of explicit-path predicate",
     "C17": "MIR who-may-write stdout, payload provenance, no fs mutation on the stdin path",
+    "C18": "MIR dataflow: argument order from format_code's result to TextDiff::from_lines, frozen idiom table of exact no-difference tests with polarity, symbolic linear forms of the JSON line numbers over the DiffOp fields, iterator-chain completeness of the mismatch texts (all changes, matching tag), loop-exit structure, unified-diff builder options; the line diff itself (crate similar) is assumed",
     "C19": "static race pattern: lattice-monotone atomic status updates, join-before-read, no shared mutable captures",
     "C20": "MIR + ADT facts: flag/config enum conversions total and name preserving, override wiring field-by-field, deny_unknown_fields in derived visitors, editorconfig mapping table",
 }
@@ -34,9 +35,6 @@ NOT_APPLICABLE = {
     "C06": "idempotence is format(format(p)) = format(p): its truth lives in the interaction of input-layout evidence "
            "(byte offsets, preserved blank lines) with width arithmetic; no clause of it is visible in the shape of the "
            "code and no sound static argument in reach bounds those runtime quantities (DESIGN.md section 4)",
-    "C18": "a numeric round trip over runtime diffs computed by the `similar` crate (line indices, f32 ratio); deciding it "
-           "needs value reasoning for all text pairs - a runtime patcher is the right tool and is out of family "
-           "(DESIGN.md section 4)",
 }
 
 PENDING_REASON = "no static check is registered for this property yet in this tree (rules under construction; see DESIGN.md)"
